@@ -559,9 +559,9 @@ func genCase(t *rapid.T, concurrent bool) Case {
 }
 
 func TestHistories(t *testing.T) {
-	vfrun.Run(t, vfrun.Prop[Case]{Property: "C03", Name: "TestHistories", Gen: func(t *rapid.T) Case { return genCase(t, false) }, Check: check}, vfrun.N(600, 20000))
+	vfrun.Run(t, vfrun.Prop[Case]{Property: "C03", Name: "TestHistories", Gen: func(t *rapid.T) Case { return genCase(t, false) }, Check: check}, vfrun.N(600, 120000))
 }
 
 func TestConcurrent(t *testing.T) {
-	vfrun.Run(t, vfrun.Prop[Case]{Property: "C03", Name: "TestConcurrent", Gen: func(t *rapid.T) Case { return genCase(t, true) }, Check: check}, vfrun.N(120, 2500))
+	vfrun.Run(t, vfrun.Prop[Case]{Property: "C03", Name: "TestConcurrent", Gen: func(t *rapid.T) Case { return genCase(t, true) }, Check: check}, vfrun.N(120, 15000))
 }
